@@ -236,6 +236,8 @@ Leg(t, i) ==
               gen(tt) == genF[tt]
               run3 == [tt \in Tags |-> run2[tt] \o (IF tt \in CreateF[t] THEN SortedCands(genF[tt]) ELSE <<>>)]
               dry == \E tt \in Tags : Len(run3[tt]) > PoolF[tt]
+              noBoundary == \E tt \in Tags : Kind(tt) = "cell_boundary" /\
+                               ~(Len(run3[tt]) = Cardinality(gen(tt)) /\ {Cand(x.ids, x.ck) : x \in Range(run3[tt])} = gen(tt))
               unequal == \E tt \in Tags : Kind(tt) # "start_of_run" /\
                             (IF Tracked(Kind(tt))
                              THEN ~(Len(run3[tt]) = Cardinality(gen(tt)) /\ {Cand(x.ids, x.ck) : x \in Range(run3[tt])} = gen(tt))
@@ -249,6 +251,7 @@ Leg(t, i) ==
                             \cup (IF notTrashed THEN {"C09 PrevIsTrashed: the committed handler is not trashed"} ELSE {})
                             \cup (IF dry THEN {"C09 NoPoolExhaustion: more event handlers demanded than the tagger owns"} ELSE {})
                             \cup (IF unequal /\ k # "end_of_run" THEN {"C09 PendingEqualsFresh: pending candidates differ from a fresh start"} ELSE {})
+                            \cup (IF noBoundary /\ k # "end_of_run" THEN {"C11 CellBoundaryPending: no (or an outdated / duplicate) cell-boundary candidate is pending for the tracked active unit"} ELSE {})
                             \cup (IF several THEN {"C11 several active units on the level of a cell system"} ELSE {})
                             \cup (IF \E s \in Systems : book1[s].err THEN {"C11 occupancy update fails: active unit recorded nowhere"} ELSE {})
                             \cup (IF wrongMode THEN {"mode switcher fires in the mode it aims at"} ELSE {})
